@@ -20,18 +20,21 @@ KINDS = ("Hypergraph", "DirectedHypergraph", "TemporalHypergraph", "MultiplexHyp
 def contents(kind, labels="int"):
     a, b, c, d = (0, 1, 2, 3) if labels == "int" else ("a", "b", "c", "d")
     if kind == "Hypergraph":
-        edges = [((a, b), "w1", {"k": "m1"}), ((b, c, a), "w2", None), ((c,), "w3", {"j": "m2"})]
+        edges = [((a, b), "w1", {"k": "m1", "l": ["la", "lb"]}), ((b, c, a), "w2", None), ((c,), "w3", {"j": "m2"})]
         extra = (b, d)
     elif kind == "DirectedHypergraph":
-        edges = [(((a,), (b,)), "w1", {"k": "m1"}), (((b, a), (c,)), "w2", None), (((c,), (a,)), "w3", {"j": "m2"})]
+        edges = [(((a,), (b,)), "w1", {"k": "m1", "l": ["la", "lb"]}), (((b, a), (c,)), "w2", None),
+                 (((c,), (a,)), "w3", {"j": "m2"})]
         extra = ((b,), (d,))
     elif kind == "TemporalHypergraph":
-        edges = [((a, b), 0, "w1", {"k": "m1"}), ((b, c, a), 2, "w2", None), ((a, b), 5, "w3", {"j": "m2"})]
+        edges = [((a, b), 0, "w1", {"k": "m1", "l": ["la", "lb"]}), ((b, c, a), 2, "w2", None),
+                 ((a, b), 5, "w3", {"j": "m2"})]
         extra = ((b, d), 1)
     else:
-        edges = [((a, b), "L0", "w1", {"k": "m1"}), ((b, c, a), "L1", "w2", None), ((a, b), "L1", "w3", {"j": "m2"})]
+        edges = [((a, b), "L0", "w1", {"k": "m1", "l": ["la", "lb"]}), ((b, c, a), "L1", "w2", None),
+                 ((a, b), "L1", "w3", {"j": "m2"})]
         extra = ((b, d), "L0")
-    nodes = [(a, {"k": "m3"}), (b, None), (c, {"j": "m4"}), (d, None)]
+    nodes = [(a, {"k": "m3", "d": {"x": "nx", "y": ["ny1", "ny2"]}}), (b, None), (c, {"j": "m4", "c1": 1}), (d, None)]
     return nodes, edges, extra
 
 
@@ -49,7 +52,16 @@ class Vals:
 
 
 def md_of(md, V):
-    return None if md is None else {k: V(v) for k, v in md.items()}
+    """metadata template -> value: strings name symbolic integers, lists and dicts are kept as structure"""
+    if md is None:
+        return None
+    if isinstance(md, str):
+        return V(md)
+    if isinstance(md, list):
+        return [md_of(x, V) for x in md]
+    if isinstance(md, dict):
+        return {k: md_of(v, V) for k, v in md.items()}
+    return md
 
 
 def new(kind, weighted):
@@ -102,6 +114,11 @@ def set_edge_md(h, kind, e, md):
         h.set_edge_metadata(*args, md)
 
 
+def set_hmeta(h, V):
+    h.set_attr_to_hypergraph_metadata("name", V("hm"))
+    h.set_attr_to_hypergraph_metadata("tags", [V("t1"), V("t2")])
+
+
 def build_plain(kind, weighted, V, labels):
     nodes, edges, extra = contents(kind, labels)
     h = new(kind, weighted)
@@ -109,7 +126,7 @@ def build_plain(kind, weighted, V, labels):
         h.add_node(n, metadata=md_of(md, V)) if md is not None else h.add_node(n)
     for e in edges:
         add_edge(h, kind, e, V, weighted)
-    h.set_attr_to_hypergraph_metadata("name", V("hm"))
+    set_hmeta(h, V)
     return h
 
 
@@ -119,7 +136,7 @@ def build_variant(kind, weighted, V, labels, variant):
     if variant == "perm":
         for e in reversed(edges):
             add_edge(h, kind, e, V, weighted, reverse=True)
-        h.set_attr_to_hypergraph_metadata("name", V("hm"))
+        set_hmeta(h, V)
         for n, md in reversed(nodes):
             # nodes already exist through the hyperedges: metadata is attached afterwards
             h.add_node(n)
@@ -170,7 +187,7 @@ def build_variant(kind, weighted, V, labels, variant):
         h.remove_attr_from_node_metadata(n0, "tmp")
     else:
         raise KeyError(variant)
-    h.set_attr_to_hypergraph_metadata("name", V("hm"))
+    set_hmeta(h, V)
     return h
 
 
@@ -196,13 +213,28 @@ def build_edit(kind, weighted, V, labels, edit):
     elif edit == "edge-md-value":
         v2 = V("m_other")
         ok = v2 != V("m1")
-        set_edge_md(h, kind, e0, {"k": v2})
+        set_edge_md(h, kind, e0, {"k": v2, "l": [V("la"), V("lb")]})
+    elif edit == "edge-md-list-order":
+        ok = V("la") != V("lb")
+        set_edge_md(h, kind, e0, {"k": V("m1"), "l": [V("lb"), V("la")]})
+    elif edit == "node-md-nested-value":
+        v2 = V("m_other")
+        ok = v2 != V("nx")
+        h.set_attr_to_node_metadata(nodes[0][0], "d", {"x": v2, "y": [V("ny1"), V("ny2")]})
+    elif edit == "node-md-nested-list-order":
+        ok = V("ny1") != V("ny2")
+        h.set_attr_to_node_metadata(nodes[0][0], "d", {"x": V("nx"), "y": [V("ny2"), V("ny1")]})
+    elif edit == "hg-md-list-order":
+        ok = V("t1") != V("t2")
+        h.set_attr_to_hypergraph_metadata("tags", [V("t2"), V("t1")])
+    elif edit == "md-int-vs-str":
+        h.set_attr_to_node_metadata(nodes[2][0], "c1", "1")
     elif edit == "edge-md-key":
         if kind == "MultiplexHypergraph":
             h.remove_attr_from_edge_metadata(e0[0], e0[1], "k")
             h.set_attr_to_edge_metadata(e0[0], e0[1], "k2", V("m1"))
         else:
-            set_edge_md(h, kind, e0, {"k2": V("m1")})
+            set_edge_md(h, kind, e0, {"k2": V("m1"), "l": [V("la"), V("lb")]})
     elif edit == "node-md-value":
         v2 = V("m_other")
         ok = v2 != V("m3")
@@ -229,7 +261,8 @@ def build_edit(kind, weighted, V, labels, edit):
 
 VARIANTS = ("perm", "detour-edge", "detour-node", "readd", "late")
 EDITS_COMMON = ("extra-node", "extra-edge", "missing-edge", "weight", "edge-md-value", "edge-md-key", "node-md-value",
-                "node-md-extra", "hg-md-value", "weightedness")
+                "node-md-extra", "hg-md-value", "weightedness", "edge-md-list-order", "node-md-nested-value",
+                "node-md-nested-list-order", "hg-md-list-order", "md-int-vs-str")
 
 
 def observe(h):
